@@ -207,7 +207,9 @@ impl UnitPropagate {
         ensures
             r is None ==> unsat(cnf.clauses@),
             r matches Some((up, m)) ==> up.inv() && up.cnf == cnf && m.wf() && implied_by(cnf.clauses@, m),
-            // (a necessary part of "propagation runs to fixpoint") the literal of every unit clause is assigned
+            // (necessary parts of "no clause is left falsified or with exactly one unassigned literal") there is no empty clause, and
+            // the literal of every unit clause is assigned
+            r is Some ==> forall|i: int| 0 <= i < cnf.clauses@.len() ==> (#[trigger] cnf.clauses@[i])@.len() >= 1,
             r matches Some((up, m)) ==> forall|i: int| 0 <= i < cnf.clauses@.len() && (#[trigger] cnf.clauses@[i])@.len() == 1 ==> m.val(cnf.clauses@[i]@[0].lbl) == Some(cnf.clauses@[i]@[0].pol),
 //%% @entry
         let ghost cs = cnf.clauses@;
@@ -224,6 +226,7 @@ impl UnitPropagate {
                 forall|i: int, j: int| 0 <= i < watch_list_neg@.len() && 0 <= j < watch_list_neg@[i]@.len() ==> (#[trigger] watch_list_neg@[i]@[j]) < cs.len(),
                 forall|k: int| 0 <= k < implied@.len() ==> unit_lit_ok(cs, #[trigger] implied@[k]) && implied@[k].lbl.0 < cnf.num_vars,
                 forall|i: int| 0 <= i < idx__n && (#[trigger] cs[i])@.len() == 1 ==> implied@.contains(cs[i]@[0]),
+                forall|i: int| 0 <= i < idx__n ==> (#[trigger] cs[i])@.len() >= 1,
             decreases cs.len() - idx__n,
 //%% @loopbody 2
             proof {
@@ -303,3 +306,5 @@ impl UnitPropagate {
                     forall|i: int| 0 <= i < remaining_lits@.len() ==> *(#[trigger] remaining_lits@[i]) == unassigned_upto(clause@, cur_state, flt__i as int)[i],
 //%% end
 }
+
+//%% include inc/unitprop_fix.rs
